@@ -145,6 +145,68 @@ theorem C15_filter_errors_add_parent (ops : List (Nat × Nat)) (o : Onto) :
     (runSt step (keep ops (runSt step ops o).2) o).1 = (runSt step ops o).1 :=
   (C15_filter_errors _ (fun s a h => C15_add_parent_error_no_effect s a.1 a.2 (by simpa using h)) ops o).1
 
+/-- the same with a state invariant (needed where "failing calls change nothing" holds on
+reachable states only) -/
+theorem C15_filter_errors_inv {σ α : Type} (step : σ → α → σ × Bool) (Inv : σ → Prop)
+    (hinv : ∀ s a, Inv s → Inv (step s a).1)
+    (hfail : ∀ s a, Inv s → (step s a).2 = false → (step s a).1 = s) :
+    ∀ (ops : List α) (s : σ), Inv s →
+      (runSt step (keep ops (runSt step ops s).2) s).1 = (runSt step ops s).1 ∧
+      (runSt step (keep ops (runSt step ops s).2) s).2 =
+        List.replicate (keep ops (runSt step ops s).2).length true := by
+  intro ops
+  induction ops with
+  | nil => intro s _; simp [runSt, keep]
+  | cons a ops ih =>
+    intro s hs
+    simp only [runSt, keep]
+    cases hb : (step s a).2 with
+    | false =>
+      simp only [Bool.false_eq_true, ↓reduceIte]
+      have hs' := hfail s a hs hb
+      rw [hs']
+      exact ih s hs
+    | true =>
+      simp only [↓reduceIte, runSt, hb, List.length_cons, List.replicate_succ]
+      have := ih (step s a).1 (hinv s a hs)
+      exact ⟨this.1, by rw [this.2]⟩
+
+/-- instance: histories of `annotate_*` calls (all three kinds, any ids) on any state reachable
+through the builder API: the final builder equals the one reached by the successful calls alone -/
+theorem C15_filter_errors_annotate (anc : Nat → List Nat) (ex : Nat → Prop) (rank : Nat → Nat)
+    (hc : AncClosure anc ex rank) (n : Nat) (hn : ∀ j, rank j < n + 2)
+    (ops : List (Kind × Nat × List Char × Nat)) (o : Onto)
+    (hinv : AnnInv anc ex o) (hlen : o.terms.length = n) :
+    let step := fun (o : Onto) (c : Kind × Nat × List Char × Nat) =>
+      ((o.annotateSt c.1 c.2.1 c.2.2.1 c.2.2.2).1,
+       decide ((o.annotateSt c.1 c.2.1 c.2.2.1 c.2.2.2).2 = .ok ()))
+    (runSt step (keep ops (runSt step ops o).2) o).1 = (runSt step ops o).1 := by
+  intro step
+  refine (C15_filter_errors_inv step (fun o => AnnInv anc ex o ∧ o.terms.length = n) ?_ ?_ ops o
+    ⟨hinv, hlen⟩).1
+  · rintro s ⟨k, rid, nm, t⟩ ⟨hs, hl⟩
+    have hf : ∀ j, rank j < s.terms.length + 2 := by rw [hl]; exact hn
+    rcases annInv_annotate anc ex rank hc s k rid nm t hs hf with ⟨he, hne⟩ | ⟨_, o', hok, hinv', hlen', _⟩
+    · have h1 : (s.annotateSt k rid nm t).2 ≠ .ok () := by
+        unfold Onto.annotate at he
+        unfold Onto.annotateSt
+        cases hg : s.get t with
+        | none => simp
+        | some tm =>
+          exfalso; apply hne
+          refine (hs.pres t).1 ?_
+          rw [get_eq_getT s t hs.small] at hg; simp [hg]
+      have := (C15_annotate_error_no_effect anc ex rank hc s hs hf k rid nm t h1).1
+      simp only [step]
+      rw [this]; exact ⟨hs, hl⟩
+    · have := annotateSt_ok s k rid nm t o' hok
+      simp only [step, this]
+      exact ⟨hinv', hlen'.trans hl⟩
+  · rintro s ⟨k, rid, nm, t⟩ ⟨hs, hl⟩ hb
+    have hf : ∀ j, rank j < s.terms.length + 2 := by rw [hl]; exact hn
+    have h1 : (s.annotateSt k rid nm t).2 ≠ .ok () := by simpa [step] using hb
+    exact (C15_annotate_error_no_effect anc ex rank hc s hs hf k rid nm t h1).1
+
 /-! ### built ontologies are referentially closed -/
 
 /-- every id handed out by the read API resolves in the same ontology -/
